@@ -182,7 +182,9 @@ def check_codes(ctx, values, form, magcls):
         ctx.sig("codes", form, magcls)
         return
     dtype = {"int64": np.int64, "int32": np.int32, "0d": np.int64,
-             "2d-int64": np.int64, "uint32": np.uint32}[form]
+             "2d-int64": np.int64, "uint32": np.uint32, "int16": np.int16,
+             "int8": np.int8, "uint8": np.uint8, "uint16": np.uint16,
+             "uint64": np.uint64}[form]
     lim = np.iinfo(dtype).max
     vals = [v for v in vals if v + 1 <= lim]
     if not vals:
@@ -224,13 +226,14 @@ def check_codes(ctx, values, form, magcls):
                all(int(x) == y for x, y in zip(b2.ravel(), refb)),
                cls="b2g(g2b(n))!=n:" + magcls, n=n, detail=d)
     g1 = np.asarray(CV.binary2gray(arr + 1))
-    x = np.bitwise_xor(g.astype(np.int64), g1.astype(np.int64))
-    ctx.ev("gray-adjacent", bool(np.all(popcount_arr(x) == 1)), cls="adjacent",
+    x = [int(a) ^ int(b) for a, b in zip(g.ravel(), g1.ravel())]
+    ctx.ev("gray-adjacent", all(v.bit_count() == 1 for v in x), cls="adjacent",
            n=n, detail=d)
     ctx.sig("codes", form, magcls)
 
 
-FORMS = ["pyint", "int64", "int32", "0d", "2d-int64"]
+FORMS = ["pyint", "int64", "int32", "0d", "2d-int64", "int16", "int8", "uint8",
+         "uint16", "uint32", "uint64"]
 
 
 def case_codes_exhaustive(ctx, rng, idx):
@@ -243,6 +246,8 @@ def case_codes_exhaustive(ctx, rng, idx):
     check_codes(ctx, vals[:64] + vals[-64:], "pyint", "<2^17")
     check_codes(ctx, vals[:1], "0d", "<2^17")
     check_codes(ctx, vals, "2d-int64", "<2^17")
+    for f in ("int16", "int8", "uint8", "uint16", "uint32", "uint64"):
+        check_codes(ctx, vals, f, "<2^17")
 
 
 def case_codes_pow2(ctx, rng, idx):
